@@ -46,6 +46,10 @@ class CriticalPathCalculator:
         self.__tasks: Dict[Any, Task] = {}
         self.__end_date = end_date
 
+        # The network consists of the given tasks only: predecessors from other projects are not part of it
+        tasks = list(tasks)
+        self.__members = {id(t) for t in tasks}
+
         for t in tasks:
             if end_date is not None:
                 if t.end == end_date:
@@ -64,7 +68,7 @@ class CriticalPathCalculator:
 
         p_ids = []
         for p in self.__leaf_predecessors(task):
-            if p.id not in p_ids:
+            if id(p) in self.__members and p.id not in p_ids:
                 p_ids.append(p.id)
                 self.__insert_task(p)
 
